@@ -196,6 +196,8 @@ class ExprMixin:
     # holds a member of S and with unknown parameters, stores.  S is computed by fixpoint iteration and exists only when all its
     # members are *closed* (functions, types, modules, None, literals, tuples of those): a memo / lazily resolved import.  A read
     # then forks over S (inductive module invariant "X in S": holds after import, preserved by every function that can assign X).
+    # When a stored value is not closed but it and all members of S are ints (or all bools, or all strs) the cell is "some value
+    # of that type" (a counter, a flag): a read gives a fresh symbolic value of the type (invariant: the type).
     # Anything else -- writers outside the subset, a stored value that depends on a parameter, no fixpoint in 4 rounds, a binding
     # form other than plain assignment, `globals()` / `setattr` in the module -- makes the read an unknown value (VUnk), never the
     # initialiser.  `reg.module_consts` overrides win (a pack's own model of a configuration object).  Not covered (assumed):
@@ -257,11 +259,11 @@ class ExprMixin:
         if getattr(mod, "_greflect", False) or name not in mod.assigns:
             cells[name] = None
             return None
-        # binding forms other than `X = value` / `X: T = value` inside a writer are not collected -> unknown
+        # binding forms other than `X = value` / `X: T = value` / `X op= value` inside a writer are not collected -> unknown
         for q in writers:
             for x in ast.walk(mod.functions[q]):
                 bad = None
-                if isinstance(x, (ast.AugAssign, ast.For, ast.AsyncFor, ast.NamedExpr, ast.comprehension)):
+                if isinstance(x, (ast.For, ast.AsyncFor, ast.NamedExpr, ast.comprehension)):     # (augmented assignment goes through assign())
                     bad = x.target
                 elif isinstance(x, ast.withitem):
                     bad = x.optional_vars
@@ -288,10 +290,11 @@ class ExprMixin:
             cells[name] = None
             return None
         S = {k0: init}
+        sort = None            # VInt / VBool / VStr: "some value of that type" (counters, flags) once a stored value is not closed
         saved = getattr(self.reg, "_gcell_collect", None)
         try:
-            for _round in range(4):
-                cells[name] = list(S.values())        # what reads inside the writers see in this round
+            for _round in range(5):
+                cells[name] = ("sort", sort) if sort is not None else list(S.values())   # what reads inside the writers see
                 grown = False
                 for q in writers:
                     coll = self.reg._gcell_collect = []
@@ -314,16 +317,29 @@ class ExprMixin:
                     for (key, v) in coll:
                         if key != (mod.rel, name):
                             continue
+                        if sort is not None:
+                            if type(v) is not sort or (sort is VInt and v.is_bv):
+                                cells[name] = None
+                                return None
+                            continue
                         kv = self.closed_value_key(v)
                         if kv is None:
+                            if type(v) in (VInt, VBool, VStr) and not (type(v) is VInt and v.is_bv) and all(type(x) is type(v) for x in S.values()):
+                                sort, grown = type(v), True
+                                continue
                             cells[name] = None
                             return None
                         if kv not in S:
                             S[kv] = v
                             grown = True
                 if not grown:
-                    cells[name] = list(S.values())
+                    cells[name] = ("sort", sort) if sort is not None else list(S.values())
                     return cells[name]
+                if sort is None and _round >= 1:
+                    # widening: a set of literals of one type that is still growing (a counter) becomes "some value of the type"
+                    kinds = {type(x) for x in S.values()}
+                    if len(kinds) == 1 and next(iter(kinds)) in (VInt, VBool, VStr) and not any(type(x) is VInt and x.is_bv for x in S.values()):
+                        sort = next(iter(kinds))
             cells[name] = None
             return None
         finally:
@@ -341,6 +357,12 @@ class ExprMixin:
         vals = self.global_cell_values(name)
         if vals is None:
             return [(st, self.unknown_global(st, name))]
+        if isinstance(vals, tuple):        # ("sort", cls): some value of that type
+            cls = vals[1]
+            nm = fresh_name(f"global_{name}")
+            v = VInt(z3.Int(nm)) if cls is VInt else VBool(z3.Bool(nm)) if cls is VBool else VStr(z3.String(nm))
+            st.ghost[key] = v
+            return [(st, v)]
         out = []
         for v in vals:
             s2 = st.fork() if len(vals) > 1 else st
